@@ -1005,6 +1005,72 @@ class Interp:
         finally:
             self.in_progress.discard(key)
 
+    # ------------------------------------------------------------------ generic inlining of in-repo callees
+    def resolve_callee(self, call, st, fr, classes):
+        """(def node, receiver ClassInfo or None, bind_self) for a call whose target is decided by the
+        source alone: self.m(...), super().m(...), Class.m(self, ...), a module-level function, a
+        function nested in an enclosing function, or a local holding ("func", node) -- else None."""
+        func = call.func
+        ch = attr_chain(func)
+        if ch and len(ch) == 2 and fr.selfname and ch[0] == fr.selfname and fr.receiver is not None and classes is not None:
+            owner, f = classes.resolve_method(fr.receiver, ch[1])
+            if isinstance(f, FUNC_TYPES) and owner is not None and not owner.external:
+                static = any(dotted(d) == "staticmethod" for d in f.decorator_list)
+                return f, fr.receiver, not static
+        if ch and len(ch) == 2 and ch[0] == "super()" and fr.receiver is not None and classes is not None:
+            own = getattr(fr.func, "_class", None)
+            owner_ci = classes.get(fr.func._module.name, own.name) if own is not None and hasattr(fr.func, "_module") else None
+            if owner_ci is not None:
+                owner, f = classes.resolve_method(fr.receiver, ch[1], after=owner_ci)
+                if isinstance(f, FUNC_TYPES) and owner is not None and not owner.external:
+                    return f, fr.receiver, True
+        if isinstance(func, ast.Name):
+            key = fr.local(func.id)
+            if st.has(key):
+                v = st.get(key)
+                if isinstance(v, tuple) and len(v) == 2 and v[0] == "func" and isinstance(v[1], FUNC_TYPES):
+                    return v[1], fr.receiver, False
+                return None
+            # nested def in an enclosing function, then module level
+            n = fr.func
+            while n is not None:
+                body = getattr(n, "body", None)
+                if isinstance(body, list):
+                    for s_ in body:
+                        if isinstance(s_, FUNC_TYPES) and s_.name == func.id and s_ is not fr.func:
+                            return s_, (fr.receiver if not isinstance(n, ast.Module) else None), False
+                n = getattr(n, "_parent", None)
+        return None
+
+    def call_function(self, f, call, st, fr, receiver=None, bind_self=True):
+        """Evaluate the arguments of ``call`` and inline ``f`` with them bound to its parameters."""
+        pos = [a for a in call.args if not isinstance(a, ast.Starred)]
+        kws = [(k.arg, k.value) for k in call.keywords if k.arg is not None]
+        params = [p.arg for p in f.args.posonlyargs + f.args.args]
+        if bind_self and params:
+            params = params[1:]
+        out = []
+        for r in self.eval_list(pos + [v for _, v in kws], st, fr):
+            if r.kind == "exc":
+                out.append(r)
+                continue
+            argvals = {}
+            for i, v in enumerate(r.value[: len(pos)]):
+                if i < len(params):
+                    argvals[params[i]] = v
+            for (k, _), v in zip(kws, r.value[len(pos):]):
+                argvals[k] = v
+            out.extend(self.inline(f, argvals, r.state, fr, receiver=receiver, is_method=bind_self))
+        return out
+
+    def auto_inline(self, call, st, fr, classes=None):
+        """Inline the callee when the source decides it; None when it does not."""
+        hit = self.resolve_callee(call, st, fr, classes)
+        if hit is None:
+            return None
+        f, receiver, bind_self = hit
+        return self.call_function(f, call, st, fr, receiver=receiver, bind_self=bind_self)
+
     def analyze(self, func, argvals, st, receiver=None, name=None, max_rounds=12):
         """Top-level entry: iterate until callee summaries are stable."""
         for _ in range(max_rounds):
